@@ -1008,9 +1008,9 @@ pub const C15I: ConcCheck = ConcCheck { sub: "hb-readers", mix: Mix::Readers, ..
 fn c15_shard(ctx: &Ctx, out: &mut ShardOut) {
     let pool = Pool::new();
     let b = budget_for(ctx.tier, ctx.shard_seed(87));
-    C15.run(ctx, &pool, 15, ctx.share(ctx.by_tier(160, 6_000)) as u32, &b, out);
-    C15R.run(ctx, &pool, 16, ctx.share(ctx.by_tier(128, 5_000)) as u32, &b, out);
-    C15I.run(ctx, &pool, 17, ctx.share(ctx.by_tier(96, 4_000)) as u32, &b, out);
+    C15.run(ctx, &pool, 15, ctx.share(ctx.by_tier(1600, 24_000)) as u32, &b, out);
+    C15R.run(ctx, &pool, 16, ctx.share(ctx.by_tier(320, 8_000)) as u32, &b, out);
+    C15I.run(ctx, &pool, 17, ctx.share(ctx.by_tier(320, 8_000)) as u32, &b, out);
 }
 fn c15_replay(sub: &str, case: &Value) -> Result<(), CaseFail> {
     let b = budget_for(Tier::Thorough, 1);
